@@ -1,4 +1,4 @@
-CONSTANTS MaxLen = 3  SubLen = 4
+CONSTANTS MaxLen = 3  SubLen = 4  NoNsFirst = TRUE
 INIT InitS
 NEXT NextS
 INVARIANT Ordered
